@@ -1,7 +1,7 @@
 (* Wire encoding of nodes and replacement maps, and the concrete hash functions
    used when the models are executed (the theorems hold for arbitrary ones). *)
 From DD Require Import Base.Wire Base.Node Model.NodeEq Model.Pickle Model.Copy Model.Trav
-  Model.Subst Model.Redup.
+  Model.Subst Model.Redup Model.Alloc.
 
 Definition hmod : Z := 2147483629%Z.
 Definition hstr0 (s : str) : Z :=
@@ -70,5 +70,8 @@ Definition dispatch_node (f : Z) (w : wire) : wire :=
   | 23, WL [a; ri; rs; WN nx] =>
       w_onode (fst (substitute_node hstr0 htup0 (r_node a) (r_irepl ri) (r_srepl rs) nx))
   | 24, WL [l; WN nx] => w_nodes (fst (reduplicate hstr0 htup0 (r_nodes l) nx))
+  | 27, WL [WN c; WL evs] =>
+      let ps := map (fun e => match e with WN p => Z.to_nat p | WL _ => O end) evs in
+      WL [WL (map WN (issued c ps)); WN (final c ps); WL (map WN (issued_local c ps))]
   | _, _ => w_err
   end%Z.
